@@ -1520,7 +1520,7 @@ esl_buffer_Read(ESL_BUFFER *bf, size_t nbytes, void *p)
       else if  (bf->n - bf->pos == navail)   return eslEOF; /* nothing more to load: input ends before <nbytes> */
     }
 
-  memcpy(p, bf->mem+bf->pos, nbytes);
+  if (nbytes) memcpy(p, bf->mem+bf->pos, nbytes); /* nbytes=0 on an empty slurped file: bf->mem is NULL, and memcpy(p, NULL, 0) is undefined */
   bf->pos += nbytes;
 
   if ((status = buffer_refill(bf, 0)) != eslOK && status != eslEOF) return status; /* accept EOF, we've already copied what we need */
